@@ -22,6 +22,8 @@ var instrumentFiles = []string{
 	"diode/internal/diodes/poller.go",
 	"diode/internal/diodes/waiter.go",
 	"writer.go", // TriggerLevelWriter / SyncWriter (only instrumented if they use sync/atomic)
+	"event.go",  // the write-error path (C14 concurrent harness)
+	"sampler.go",
 }
 
 func yieldStmt(kind string) ast.Stmt {
